@@ -23,6 +23,8 @@ CLAUSES = {
     "63": "C06: two outstanding packets carry the same packet id, or id 0",
     "64": "C06: the peer acknowledged correctly and in order but the connection was closed",
     "65": "C06: a mismatching acknowledgement completed a send successfully",
+    "71": "C07: the connection has ended and every task was polled again, but a send / readiness future is still "
+          "pending (it must resolve with Disconnected)",
     "81": "C08: a packet was written while a streamed PUBLISH payload was still owed (interleaved into the payload)",
     "131": "C13: at quiescence a task is still parked although the window is open, back-pressure is off and "
            "nothing is outstanding (not one of the recorded findings)",
@@ -167,6 +169,10 @@ def track(ver, case, obs, want):
             return "0,52,%d" % i
         prev_cap, prev_wrb, prev_open, prev_tasks = cap, wrb, is_open, tasks
         prev_streaming = streaming
+    if 7 in want and not prev_open:
+        polled, pend = G.idle_suffix(case, obs)
+        if pend and set(pend) <= polled:
+            return "0,71,%d" % (len(ops) - 1)
     if 13 in want:
         sr = G.stuck_report(ver, case, obs)
         if sr is not None:
@@ -204,7 +210,7 @@ class SinkPart(Part):
         return {"config(cap,role)": case.split(";")[0], "ops": case.split(";")[1:]}
 
 
-def make_parts(tier, rng, want, quiesced=False):
+def make_parts(tier, rng, want, quiesced=False, closing=False):
     """sink3 + sink5, roles server (0) and client (1)"""
     parts = []
     big = tier == "thorough"
@@ -214,6 +220,8 @@ def make_parts(tier, rng, want, quiesced=False):
                               n_random=1500 if not big else 20000, n_qos2=300 if not big else 3000)
             if quiesced:
                 cases += G.quiesced_cases(rng, ver, role, count=800 if not big else 10000)
+            if closing:
+                cases = G.closing_cases(rng, ver, role, count=1500 if not big else 20000)
             p = SinkPart("v%d-role%d" % (ver, role), "sink%d" % ver, cases, shards=16,
                          rule="seed schedules + exhaustive short op lists + QoS2 orderings + random op lists to "
                               "length 40" + (" + schedules driven to quiescence" if quiesced else ""),
